@@ -43,10 +43,10 @@ RULE = (
     "stack: rows == aggregate per sorted label computed by an independent loop, fold == counts, header means. "
     "Non-trivial = (cadzow/derank/svd: requested rank < full rank) or (savgol: irregular abscissae) or (venn: >= 2 "
     "chunks) or (stack: >= 2 labels with different folds) or (savgol_interp: at least one NaN gap) or (lp/rolling: "
-    "non-zero constant with window/padding active). Distinct = distinct case hash.")
+    "non-zero constant with window/padding active) or (traj: permuted trace order). Distinct = distinct case hash.")
 EXHAUSTIVE_NOTE = ("every full rectangular layout 1-4 x 4-40 (natural trace order) goes through cadzow.denoise at rank "
-                   "full (random spectra) and at rank 1 (plane wave + noise) in the quick tier and at every rank 1..full "
-                   "(k = rank plane waves) in the thorough tier; rolling_window: every window kind x odd length 3..51 x "
+                   "1 (plane wave + noise) in the quick tier, and at rank full (random spectra) and every rank 1..full "
+                   "(k = rank plane waves + noise) in the thorough tier; rolling_window: every window kind x odd length 3..51 x "
                    "3 signal lengths; lp: every length 1..200 x 4 paddings. Data, trace order and all other "
                    "sub-properties are sampled.")
 ASSUMPTIONS = [
@@ -63,15 +63,16 @@ ASSUMPTIONS = [
     "ValueError (the documented message says the data must be larger than the window)",
     "savgol tolerance is conditioning-scaled; cases with eps*cond^2 > 1e-4 are labelled illcond_skipped and not asserted",
 ]
-BUDGET = {"quick": 2400, "thorough": 64000}
+BUDGET = {"quick": 3200, "thorough": 100000}
 SHRINK = {"quick": True, "thorough": True}
-WALL_CAP = {"quick": 600, "thorough": 3000}
+WALL_CAP = {"quick": 900, "thorough": 5400}
 
 EPS = float(np.finfo(np.float64).eps)
 ID_TOL = 1e-10          # identity tolerance relative to max |input| (float64)
 WINDOWS = ["flat", "hanning", "hamming", "bartlett", "blackman"]
-FNS = (["cadzow"] * 12 + ["traj"] * 3 + ["derank"] * 12 + ["svd"] * 12 + ["lp"] * 8 + ["rolling"] * 8
-       + ["savgol"] * 13 + ["savgol_interp"] * 8 + ["venn"] * 14 + ["stack"] * 10)
+# cadzow / traj cases cost ~0.3 s each (ismember2d re-compiles a numba function on every call), everything else < 10 ms
+FNS = (["cadzow"] * 8 + ["traj"] * 2 + ["derank"] * 13 + ["svd"] * 13 + ["lp"] * 8 + ["rolling"] * 8
+       + ["savgol"] * 14 + ["savgol_interp"] * 9 + ["venn"] * 15 + ["stack"] * 10)
 NOISE_NF = 32           # number of noisy frequencies the cadzow noise statement is aggregated over
 NOISE_REP = 16          # number of noise realisations the derank / svd noise statement is aggregated over
 
@@ -259,7 +260,8 @@ def enum_cases(desc):
         for nx, ny in desc["layouts"]:
             full = _dims(nx, ny)[2]
             seed = 1000 * nx + ny
-            yield _enum_cadzow_case(nx, ny, "random", None, seed)
+            if desc["tier"] != "quick":
+                yield _enum_cadzow_case(nx, ny, "random", None, seed)
             ks = [1] if desc["tier"] == "quick" else range(1, full + 1)
             for k in ks:
                 yield _enum_cadzow_case(nx, ny, "waves", k, seed + 7919 * k)
@@ -387,7 +389,6 @@ def _run_cadzow(case, ctx):
     if not ctx.check(_is_array(out, wav.shape), "C20.cadzow_shape",
                      lambda: f"denoise returned {type(out).__name__} of shape {getattr(out, 'shape', None)}, input {wav.shape}"):
         return
-    ctx.check(np.array_equal(win, wav), "C20.cadzow_input_modified", "denoise modified its input array")
     nkeep = wav.shape[1] if not imax else min(imax, wav.shape[1])
     nid = min(nkeep, nf)
     ref_scale = _maxabs(clean)
